@@ -2784,7 +2784,7 @@ FP_PROPS = {
     "parse_buffer_hexadecimal": {"C05"}, "parse_buffer_string": {"C05"},
     "print_format_num": {"C03", "C07"}, "format_int_decimal": {"C07"}, "format_uint_decimal": {"C07"}, "format_num_hexadecimal": {"C07"},
     "format_buffer_hexadecimal": {"C03", "C07"}, "format_buffer_string": {"C03", "C07"}, "format_info_type": {"C19"},
-    "cat_init": {"C01", "C02", "C03", "C13", "C14", "C18", "C20"}, "unsolicited_init": {"C13", "C18"},
+    "cat_init": {"C01", "C02", "C03", "C13", "C14", "C16", "C17", "C18", "C20"}, "unsolicited_init": {"C13", "C18"},
     "cat_service": {"C11", "C15", "C16"}, "cat_is_busy": {"C16", "C18"}, "cat_is_hold": {"C14", "C16", "C18"},
     "cat_hold_exit": {"C14", "C16"}, "cat_trigger_unsolicited_event": {"C13", "C16"}, "cat_trigger_unsolicited_read": {"C13"},
     "cat_trigger_unsolicited_test": {"C13"}, "cat_is_unsolicited_buffer_full": {"C13", "C16"},
